@@ -1002,7 +1002,12 @@ func schedClosures(c schedCase, failed []int) (must, may map[int]bool) {
 		}
 	}
 	for chg := 0; chg < c.NChanges; chg++ {
-		lm, lu := map[int]bool{}, map[int]bool{}
+		lu := map[int]bool{}
+		// MUST lanes are kept per failed task: one failure aborts the tasks all of
+		// whose lanes are lanes of THAT task (a task whose lanes are only covered by
+		// the union of several failures may have been legitimately exempt each time;
+		// that situation is judged by rule 5a on the final state instead)
+		var lms []map[int]bool
 		any := false
 		for _, f := range failed {
 			if c.Tasks[f].Chg != chg {
@@ -1010,9 +1015,11 @@ func schedClosures(c schedCase, failed []int) (must, may map[int]bool) {
 			}
 			any = true
 			must[f], may[f] = true, true
+			lm := map[int]bool{}
 			for _, l := range schedLanes(c, f) {
 				lm[l], lu[l] = true, true
 			}
+			lms = append(lms, lm)
 		}
 		if !any {
 			continue
@@ -1024,14 +1031,17 @@ func schedClosures(c schedCase, failed []int) (must, may map[int]bool) {
 					continue
 				}
 				if !must[i] {
-					all := true
-					for _, l := range schedLanes(c, i) {
-						if !lm[l] {
-							all = false
+					for _, lm := range lms {
+						all := true
+						for _, l := range schedLanes(c, i) {
+							if !lm[l] {
+								all = false
+							}
 						}
-					}
-					if all {
-						must[i], changed = true, true
+						if all {
+							must[i], changed = true, true
+							break
+						}
 					}
 				}
 				if !may[i] {
@@ -1042,8 +1052,6 @@ func schedClosures(c schedCase, failed []int) (must, may map[int]bool) {
 					}
 				}
 				if must[i] {
-					// (lanes of tasks aborted only as dependents are NOT added to the
-					// MUST lanes: the statement does not require it; they are in U)
 					for _, d := range halts[i] {
 						if !must[d] {
 							must[d], changed = true, true
